@@ -61,9 +61,10 @@ class Registry:
 REG = Registry()
 
 
-def classdef(qualname, bases=(), fields=None, abstract=False, views=None, sealed=False, tuple_fields=None):
+def classdef(qualname, bases=(), fields=None, abstract=False, views=None, sealed=False, tuple_fields=None, record=None):
     d = ClassDecl(qualname, bases, fields or {}, abstract, views or {}, sealed)
     d.tuple_fields = list(tuple_fields or [])      # a tuple kept in a list, modelled as an immutable object with these fields
+    d.record = record      # a dictionary kept in a list: an object whose field `record` holds the dictionary (x["k"], x.get, "k" in x)
     REG.classes[d.name] = d
     return d
 
